@@ -383,6 +383,33 @@ class FakeDatetime(_real_datetime):
         return _real_datetime.fromtimestamp(s.now_ms() / 1000.0, tz)
 
 
+def _s3_write_data_file(self: Any, file_path: str, records: Any, iceberg_schema: Any, file_format: Any = None,
+                        partition_values: Any = None) -> Any:
+    """Harness shim for the DATA-plane write on the fake object store (the real method writes through pyarrow's own
+    S3 filesystem, which cannot run offline): same validation, bounds, checksum and DataFile as the real method, bytes
+    stored through the backend's write_file."""
+    import io
+
+    import pyarrow as pa
+    import pyarrow.parquet as pq
+    from datashard.data_structures import DataFile, FileFormat
+    from datashard.integrity import IntegrityChecker
+    if records:
+        self.validate_records_strict(records, iceberg_schema)
+    arrow_schema = self.create_arrow_schema(iceberg_schema)
+    lower = upper = None
+    table = pa.Table.from_pylist(records or [], schema=arrow_schema)
+    if records:
+        lower, upper = self._compute_column_bounds(table, iceberg_schema)
+    buf = io.BytesIO()
+    pq.write_table(table, buf, compression="lz4")
+    data = buf.getvalue()
+    self.storage.write_file(file_path.lstrip("/"), data)
+    return DataFile(file_path=file_path, file_format=file_format or FileFormat.PARQUET, partition_values=partition_values or {},
+                    record_count=table.num_rows, file_size_in_bytes=len(data), lower_bounds=lower, upper_bounds=upper,
+                    checksum=IntegrityChecker.compute_checksum(data))
+
+
 @contextlib.contextmanager
 def patched(sched: Scheduler, backend_factory: Callable[[str], Any], shared_rlock: bool = True):
     """Patch the library from outside: storage factory, clocks, uuid, sleep, metadata RLock, data-file I/O."""
@@ -417,7 +444,10 @@ def patched(sched: Scheduler, backend_factory: Callable[[str], Any], shared_rloc
         fp = kw.get("file_path", a[0] if a else "")
         e = sched.yield_point("DataW", str(fp))
         try:
-            r = saved["write_data_file"](self, *a, **kw)
+            if isinstance(self.storage, sb.S3StorageBackend):
+                r = _s3_write_data_file(self, *a, **kw)
+            else:
+                r = saved["write_data_file"](self, *a, **kw)
         except BaseException as ex:
             e["result"] = ("raised", type(ex).__name__)
             raise
@@ -434,6 +464,8 @@ def patched(sched: Scheduler, backend_factory: Callable[[str], Any], shared_rloc
         else:
             saved["sleep"](_secs)
 
+    saved["get_fs"] = dops.DataFileManager._get_arrow_filesystem
+    dops.DataFileManager._get_arrow_filesystem = lambda self: None      # never build a real pyarrow S3 filesystem
     sb.create_storage_backend = factory
     mm.datetime = FakeDatetime
     sm.datetime = FakeDatetime
@@ -455,3 +487,4 @@ def patched(sched: Scheduler, backend_factory: Callable[[str], Any], shared_rloc
         mm.MetadataManager.__init__ = saved["mm_init"]
         dops.DataFileManager.write_data_file = saved["write_data_file"]
         dops.DataFileManager.open_parquet_source = saved["open_parquet_source"]
+        dops.DataFileManager._get_arrow_filesystem = saved["get_fs"]
